@@ -2180,4 +2180,625 @@ theorem mapL : (es : PEntries) → es.bl2 = true → ∀ (n f : Nat) (rest : Lis
 end
 
 
+/-! ## Resolution, fuel and document markers for layer-2 block nodes -/
+
+mutual
+theorem resolveB : (x : PNode) → ∀ ctx, x.bl2 ctx = true → ∀ env, x.node.resolve env = .ok (x.tree, env)
+  | .null v, ctx, h, env => (scalarFacts false (.null v) (by simp [PNode.sc2]) (by intros; simp) (by intros; simp)).res env
+  | .bool b v, ctx, h, env => (scalarFacts false (.bool b v) (by simp [PNode.sc2]) (by intros; simp) (by intros; simp)).res env
+  | .int i v, ctx, h, env => (scalarFacts false (.int i v) (by simp [PNode.sc2]) (by intros; simp) (by intros; simp)).res env
+  | .str s st, ctx, h, env =>
+    (scalarFacts false (.str s st) (by simpa [PNode.bl2] using h) (by intros; simp) (by intros; simp)).res env
+  | .seq true st c items, ctx, h, env => resolveNode2 _ (by simpa [PNode.bl2] using h) env
+  | .map true st c es, ctx, h, env => resolveNode2 _ (by simpa [PNode.bl2] using h) env
+  | .seq false st c items, ctx, h, env => by
+    simp only [PNode.bl2, Bool.and_eq_true] at h
+    simp [PNode.node, Node.resolve, resolveBItems items h.1.2 env, PNode.tree]; rfl
+  | .map false st c es, ctx, h, env => by
+    simp only [PNode.bl2, Bool.and_eq_true] at h
+    simp [PNode.node, Node.resolve, resolveBEntries es h.1.2 env, PNode.tree]; rfl
+  | .anchored a n, ctx, h, _ => by simp [PNode.bl2, PNode.sc2] at h
+  | .alias a t, ctx, h, _ => by simp [PNode.bl2, PNode.sc2] at h
+theorem resolveBItems : (items : PItems) → items.bl2 = true → ∀ env, resolveList env items.nodes = .ok (items.trees, env)
+  | .nil, _, env => by simp [PItems.nodes, resolveList, PItems.trees]
+  | .cons m x r, h, env => by
+    simp only [PItems.bl2, Bool.and_eq_true] at h
+    simp [PItems.nodes, resolveList, resolveB x .seq h.1.2 env, resolveBItems r h.2 env, PItems.trees]; rfl
+theorem resolveBEntries : (es : PEntries) → es.bl2 = true → ∀ env, resolveKVs env es.nodes = .ok (es.trees, env)
+  | .nil, _, env => by simp [PEntries.nodes, resolveKVs, PEntries.trees]
+  | .cons m k ks x r, h, env => by
+    simp only [PEntries.bl2, Bool.and_eq_true] at h
+    simp [PEntries.nodes, resolveKVs, (keyFacts false k ks h.1.1.2).2.2, resolveB x .map h.1.2 env, resolveBEntries r h.2 env,
+      PEntries.trees]; rfl
+end
+
+/-- Weight of lines as counted by the loader's fuel. -/
+def wt (ls : List Line) : Nat := (ls.map fun l => l.txt.length + 2).sum
+
+theorem foldl_wt (ls : List Line) (a : Nat) : ls.foldl (fun a l => a + l.txt.length + 2) a = a + wt ls := by
+  induction ls generalizing a with
+  | nil => simp [wt]
+  | cons l ls ih => simp only [List.foldl_cons, ih, wt, List.map_cons, List.sum_cons]; omega
+
+theorem fuelOf_wt (ls : List Line) : fuelOf ls = wt ls * 4 + 8 := by
+  simp [fuelOf, foldl_wt]
+
+theorem wt_append (a b : List Line) : wt (a ++ b) = wt a + wt b := by simp [wt, List.map_append, List.sum_append]
+theorem wt_cons (l : Line) (ls : List Line) : wt (l :: ls) = l.txt.length + 2 + wt ls := by simp [wt]
+
+mutual
+theorem bneed_value : (x : PNode) → ∀ ctx, x.bl2 ctx = true → ∀ (e col : Nat) (m : Meta),
+    x.bneed ≤ 4 * ((x.valueR ctx e col m).1.length + wt (x.valueR ctx e col m).2) + 3
+  | .null _, _, _, _, _, _ => by simp [PNode.bneed]
+  | .bool _ _, _, _, _, _, _ => by simp [PNode.bneed]
+  | .int _ _, _, _, _, _, _ => by simp [PNode.bneed]
+  | .str _ _, _, _, _, _, _ => by simp [PNode.bneed]
+  | .anchored _ _, _, _, _, _, _ => by simp [PNode.bneed]
+  | .alias _ _, _, _, _, _, _ => by simp [PNode.bneed]
+  | .seq true _ _ _, _, _, _, _, _ => by simp [PNode.bneed]
+  | .map true _ _ _, _, _, _, _, _ => by simp [PNode.bneed]
+  | .seq false st c items, ctx, h, e, col, m => by
+    simp only [PNode.bl2, Bool.and_eq_true, Bool.not_eq_true'] at h
+    obtain ⟨⟨hnil, hi⟩, _⟩ := h
+    cases items with
+    | nil => simp [PItems.isNil] at hnil
+    | cons m' x r =>
+      cases c with
+      | false =>
+        have := bneed_items (.cons m' x r) hi (if ctx = .root then 0 else e + st)
+        simp only [PNode.bneed, PNode.valueR, Bool.false_eq_true, if_false]
+        omega
+      | true =>
+        have := bneed_items (.cons m' x r) hi (col + m.gap + 1)
+        have hf : m'.fill = [] := by simp [PItems.bl2] at hi; exact hi.1.1.1
+        simp only [PNode.bneed, PNode.valueR, if_true, PItems.linesR, hf, fillLines, List.map_nil, List.nil_append,
+          List.length_append, wt_cons, List.length_cons, PItems.isNil, Bool.false_eq_true, if_false] at this ⊢
+        simp only [spaces, List.length_replicate]
+        omega
+  | .map false st c es, ctx, h, e, col, m => by
+    simp only [PNode.bl2, Bool.and_eq_true, Bool.not_eq_true'] at h
+    obtain ⟨⟨hnil, hi⟩, _⟩ := h
+    cases es with
+    | nil => simp [PEntries.isNil] at hnil
+    | cons m' k ks x r =>
+      cases c with
+      | false =>
+        have := bneed_entries (.cons m' k ks x r) hi (if ctx = .root then 0 else e + st)
+        simp only [PNode.bneed, PNode.valueR, Bool.false_eq_true, if_false]
+        omega
+      | true =>
+        have := bneed_entries (.cons m' k ks x r) hi (col + m.gap + 1)
+        have hf : m'.fill = [] := by simp [PEntries.bl2] at hi; exact hi.1.1.1.1
+        simp only [PNode.bneed, PNode.valueR, if_true, PEntries.linesR, hf, fillLines, List.map_nil, List.nil_append,
+          List.length_append, wt_cons, List.length_cons, PEntries.isNil, Bool.false_eq_true, if_false] at this ⊢
+        simp only [spaces, List.length_replicate]
+        omega
+theorem bneed_items : (items : PItems) → items.bl2 = true → ∀ n,
+    items.bneed + (if items.isNil then 0 else 8) ≤ 4 * wt (items.linesR n) + 1
+  | .nil, _, _ => by simp [PItems.bneed, PItems.isNil, PItems.linesR, wt]
+  | .cons m x r, h, n => by
+    simp only [PItems.bl2, Bool.and_eq_true, List.isEmpty_iff] at h
+    have hf : m.fill = [] := h.1.1.1
+    have h1 := bneed_value x .seq h.1.2 n (n + 1) m
+    have h2 := bneed_items r h.2 n
+    simp only [PItems.bneed, PItems.isNil, PItems.linesR, hf, fillLines, List.map_nil, List.nil_append, wt_cons, wt_append,
+      List.length_cons, Bool.false_eq_true, if_false] at h1 h2 ⊢
+    split at h2 <;> omega
+theorem bneed_entries : (es : PEntries) → es.bl2 = true → ∀ n,
+    es.bneed + (if es.isNil then 0 else 8) ≤ 4 * wt (es.linesR n) + 1
+  | .nil, _, _ => by simp [PEntries.bneed, PEntries.isNil, PEntries.linesR, wt]
+  | .cons m k ks x r, h, n => by
+    simp only [PEntries.bl2, Bool.and_eq_true, List.isEmpty_iff] at h
+    have hf : m.fill = [] := h.1.1.1.1
+    have h1 := bneed_value x .map h.1.2 n (n + (keyText k ks).length + 1) m
+    have h2 := bneed_entries r h.2 n
+    simp only [PEntries.bneed, PEntries.isNil, PEntries.linesR, hf, fillLines, List.map_nil, List.nil_append, wt_cons,
+      wt_append, List.length_cons, List.length_append, Bool.false_eq_true, if_false] at h1 h2 ⊢
+    split at h2 <;> omega
+end
+
+
+/-! ## No rendered line is a document marker -/
+
+def Line.notMark (l : Line) : Prop := isDocStart l = false ∧ isDocEnd l = false
+
+theorem notMark_of_head (n : Nat) (c : Char) (t : Str) (h1 : c ≠ '-') (h2 : c ≠ '.') : Line.notMark ⟨n, c :: t⟩ := by
+  have e1 : "---".toList = ['-', '-', '-'] := by decide
+  have e2 : "...".toList = ['.', '.', '.'] := by decide
+  have q1 : ('-' == c) = false := by simp [Ne.symm h1]
+  have q2 : ('.' == c) = false := by simp [Ne.symm h2]
+  constructor
+  · simp only [isDocStart, isMarker, e1, List.isPrefixOf, q1, Bool.false_and, Bool.and_false]
+  · simp only [isDocEnd, isMarker, e2, List.isPrefixOf, q2, Bool.false_and, Bool.and_false]
+
+theorem notMark_seqLine (n : Nat) (r1 : Str) (h : RestShape r1) : Line.notMark ⟨n, '-' :: r1⟩ := by
+  have e1 : "---".toList = ['-', '-', '-'] := by decide
+  have e2 : "...".toList = ['.', '.', '.'] := by decide
+  constructor
+  · rcases h with rfl | h
+    · simp [isDocStart, isMarker, e1, List.isPrefixOf]
+    · cases r1 with
+      | nil => simp at h
+      | cons d t =>
+        have : d = ' ' := by simpa using h
+        subst this
+        simp [isDocStart, isMarker, e1, List.isPrefixOf]
+  · simp [isDocEnd, isMarker, e2, List.isPrefixOf]
+
+/-- A three-character marker is a prefix of `k ++ ':' :: r` only if it is a prefix of `k`. -/
+theorem prefix3_key (a : Char) (k r : Str) (ha : a ≠ ':') (h : List.isPrefixOf [a, a, a] k = false) :
+    List.isPrefixOf [a, a, a] (k ++ ':' :: r) = false := by
+  have hq : (a == ':') = false := by simp [ha]
+  cases k with
+  | nil => simp [List.isPrefixOf, hq]
+  | cons x k1 =>
+    cases k1 with
+    | nil => simp [List.isPrefixOf, hq]
+    | cons y k2 =>
+      cases k2 with
+      | nil => simp [List.isPrefixOf, hq]
+      | cons z k3 => simpa [List.isPrefixOf] using h
+
+theorem notMark_keyLine (n : Nat) (k : Str) (ks : KStyle) (h : keyOk false k ks = true) (r1 : Str) :
+    Line.notMark ⟨n, keyText k ks ++ ':' :: r1⟩ := by
+  have e1 : "---".toList = ['-', '-', '-'] := by decide
+  have e2 : "...".toList = ['.', '.', '.'] := by decide
+  cases ks with
+  | plain =>
+    simp only [keyOk, Bool.and_eq_true] at h
+    have hs := h.1.1
+    simp only [plainSafe, Bool.and_eq_true, Bool.not_eq_true'] at hs
+    have p1 := hs.1.2
+    have p2 := hs.2
+    rw [e1] at p1; rw [e2] at p2
+    constructor
+    · simp only [isDocStart, isMarker, keyText, e1, prefix3_key '-' k r1 (by decide) p1, Bool.and_false, Bool.false_and]
+    · simp only [isDocEnd, isMarker, keyText, e2, prefix3_key '.' k r1 (by decide) p2, Bool.and_false, Bool.false_and]
+  | single => exact notMark_of_head n '\'' _ (by decide) (by decide)
+  | double sh eu => exact notMark_of_head n '"' _ (by decide) (by decide)
+
+mutual
+theorem nm_value : (x : PNode) → ∀ ctx, x.bl2 ctx = true → ∀ (e col : Nat) (m : Meta), m.trail = none →
+    ∀ l ∈ (x.valueR ctx e col m).2, l.notMark
+  | .seq false st c items, ctx, h, e, col, m, ht => by
+    simp only [PNode.bl2, Bool.and_eq_true, Bool.not_eq_true'] at h
+    have hi := h.1.2
+    cases c with
+    | false =>
+      simp only [PNode.valueR, Bool.false_eq_true, if_false]
+      exact nm_items items hi _
+    | true =>
+      cases items with
+      | nil => simp [PItems.isNil] at h
+      | cons m' x r =>
+        have hc := nm_items (.cons m' x r) hi (col + m.gap + 1)
+        have hf : m'.fill = [] := by simp [PItems.bl2] at hi; exact hi.1.1.1
+        simp only [PNode.valueR, if_true, PItems.linesR, hf, fillLines, List.map_nil, List.nil_append] at hc ⊢
+        exact fun l hl => hc l (List.mem_cons_of_mem _ hl)
+  | .map false st c es, ctx, h, e, col, m, ht => by
+    simp only [PNode.bl2, Bool.and_eq_true, Bool.not_eq_true'] at h
+    have hi := h.1.2
+    cases c with
+    | false =>
+      simp only [PNode.valueR, Bool.false_eq_true, if_false]
+      exact nm_entries es hi _
+    | true =>
+      cases es with
+      | nil => simp [PEntries.isNil] at h
+      | cons m' k ks x r =>
+        have hc := nm_entries (.cons m' k ks x r) hi (col + m.gap + 1)
+        have hf : m'.fill = [] := by simp [PEntries.bl2] at hi; exact hi.1.1.1.1
+        simp only [PNode.valueR, if_true, PEntries.linesR, hf, fillLines, List.map_nil, List.nil_append] at hc ⊢
+        exact fun l hl => hc l (List.mem_cons_of_mem _ hl)
+  | .seq true st c items, ctx, h, e, col, m, ht => by rw [valueR_inline _ ctx h rfl e col m ht]; simp
+  | .map true st c es, ctx, h, e, col, m, ht => by rw [valueR_inline _ ctx h rfl e col m ht]; simp
+  | .null v, ctx, h, e, col, m, ht => by rw [valueR_inline _ ctx h rfl e col m ht]; simp
+  | .bool b v, ctx, h, e, col, m, ht => by rw [valueR_inline _ ctx h rfl e col m ht]; simp
+  | .int i v, ctx, h, e, col, m, ht => by rw [valueR_inline _ ctx h rfl e col m ht]; simp
+  | .str s st, ctx, h, e, col, m, ht => by rw [valueR_inline _ ctx h rfl e col m ht]; simp
+  | .anchored a n, ctx, h, _, _, _, _ => by simp [PNode.bl2, PNode.sc2] at h
+  | .alias a t, ctx, h, _, _, _, _ => by simp [PNode.bl2, PNode.sc2] at h
+theorem nm_items : (items : PItems) → items.bl2 = true → ∀ n, ∀ l ∈ items.linesR n, l.notMark
+  | .nil, _, _ => by simp [PItems.linesR]
+  | .cons m x r, h, n => by
+    simp only [PItems.bl2, Bool.and_eq_true, List.isEmpty_iff, Option.isNone_iff_eq_none] at h
+    obtain ⟨⟨⟨hf, ht⟩, hx⟩, hr⟩ := h
+    obtain ⟨hs, _, _⟩ := canon_value x .seq hx n (n + 1) m ht
+    intro l hm
+    simp only [PItems.linesR, hf, fillLines, List.map_nil, List.nil_append, List.mem_cons, List.mem_append] at hm
+    rcases hm with rfl | hm | hm
+    · exact notMark_seqLine n _ hs
+    · exact nm_value x .seq hx n (n + 1) m ht l hm
+    · exact nm_items r hr n l hm
+theorem nm_entries : (es : PEntries) → es.bl2 = true → ∀ n, ∀ l ∈ es.linesR n, l.notMark
+  | .nil, _, _ => by simp [PEntries.linesR]
+  | .cons m k ks x r, h, n => by
+    simp only [PEntries.bl2, Bool.and_eq_true, List.isEmpty_iff, Option.isNone_iff_eq_none] at h
+    obtain ⟨⟨⟨⟨hf, ht⟩, hk⟩, hx⟩, hr⟩ := h
+    intro l hm
+    simp only [PEntries.linesR, hf, fillLines, List.map_nil, List.nil_append, List.mem_cons, List.mem_append] at hm
+    rcases hm with rfl | hm | hm
+    · exact notMark_keyLine n k ks hk _
+    · exact nm_value x .map hx n (n + (keyText k ks).length + 1) m ht l hm
+    · exact nm_entries r hr n l hm
+end
+
+theorem takeDoc_notMark (ls : List Line) (h : ∀ l ∈ ls, l.notMark) : takeDoc ls = (ls, []) := by
+  induction ls with
+  | nil => rfl
+  | cons l ls ih =>
+    obtain ⟨h1, h2⟩ := h l (List.mem_cons_self ..)
+    have := ih (fun x hx => h x (List.mem_cons_of_mem _ hx))
+    simp [takeDoc, h1, h2, this]
+
+
+/-! ## Layer 2: one bare document -/
+
+/-- One bare document (no `---`, no `...`, no filler lines, no trailing comment on the root). -/
+def bareStream (x : PNode) (g : Nat) : PStream := { docs := [{ root := x, rootMeta := { gap := g } }] }
+
+/-- The lines of a bare layer-2 document. -/
+def docLines (x : PNode) (g : Nat) : List Line :=
+  if x.isInline2 then [⟨0, x.flow⟩] else (x.valueR .root 0 0 { gap := g }).2
+
+theorem flow_ne_nil_root (x : PNode) (h : x.bl2 .root = true) (hi : x.isInline2 = true) : x.flow ≠ [] := by
+  intro he
+  cases x with
+  | null v =>
+    have : nullText v = [] := by simpa [PNode.flow] using he
+    by_cases h4 : v % 5 = 4
+    · simp [PNode.bl2, h4] at h
+    · exact (tokOk_nullText v h4).2.1 this
+  | bool b v => exact (tokOk_boolText b v).2.1 (by simpa [PNode.flow] using he)
+  | int i v => exact (intText_facts i v).1.2.1 (by simpa [PNode.flow] using he)
+  | str s st =>
+    have := node_of_empty_flow _ .root h hi he
+    cases st <;> simp [PNode.node] at this
+    · have hs : plainSafe false s = true := by simp [PNode.bl2, PNode.sc2] at h; exact h.1
+      subst this; simp [plainSafe, plainFirstOk] at hs
+  | seq fl st c items => cases fl <;> simp [PNode.flow, PNode.isInline2] at he hi
+  | map fl st c es => cases fl <;> simp [PNode.flow, PNode.isInline2] at he hi
+  | anchored a n => simp [PNode.bl2, PNode.sc2] at h
+  | alias a t => simp [PNode.bl2, PNode.sc2] at h
+
+theorem chars_bare (x : PNode) (g : Nat) (h : x.bl2 .root = true) : (bareStream x g).chars = joinRaw (docLines x g) := by
+  have hcwf := cwf_of_bl2 x .root h
+  simp only [PStream.chars, bareStream, List.flatMap_cons, List.flatMap_nil, List.append_nil, flatMap_lf]
+  simp only [PDoc.text, fillText, List.flatMap_nil, List.nil_append, Bool.false_eq_true, if_false, List.append_nil,
+    Option.isNone_none, Bool.and_true, value_eq x hcwf]
+  by_cases hi : x.isInline2 = true
+  · have hb : x.isBlockColl = false := by
+      cases x <;> simp [PNode.isInline2, PNode.isBlockColl] at hi ⊢
+      all_goals (rename_i fl _ _ _; cases fl <;> simp_all [PNode.isInline2, PNode.isBlockColl])
+    have hne := flow_ne_nil_root x h hi
+    rw [valueR_inline x .root h hi 0 0 { gap := g } rfl]
+    simp only [hb, Bool.false_eq_true, if_false, hne, docLines, hi, if_true, joinRaw, List.flatMap_cons,
+      List.flatMap_nil, List.append_nil, Line.raw, spaces, List.replicate_zero, List.nil_append]
+    obtain ⟨⟨c, r, hx, hsp, _⟩, _⟩ := inline2_value x .root h hi hne
+    rw [hx]
+    have := dropSpaces_spaces (g + 1) c (r ++ '\n' :: []) hsp
+    simpa [dropSpaces, spaces, List.append_assoc] using this
+  · have hi' : x.isInline2 = false := by simpa using hi
+    have hb : x.isBlockColl = true := by
+      cases x <;> simp [PNode.isInline2, PNode.isBlockColl] at hi' ⊢
+      all_goals (rename_i fl _ _ _; cases fl <;> simp_all [PNode.isInline2, PNode.isBlockColl])
+    have hr1 : (x.valueR .root 0 0 { gap := g }).1 = [] := by
+      cases x with
+      | seq fl st c items =>
+        cases fl with
+        | true => simp [PNode.isInline2] at hi'
+        | false =>
+          have hc : c = false := by
+            simp only [PNode.bl2, Bool.and_eq_true] at h
+            cases c
+            · rfl
+            · simp at h
+          subst hc; simp [PNode.valueR, trailText]
+      | map fl st c es =>
+        cases fl with
+        | true => simp [PNode.isInline2] at hi'
+        | false =>
+          have hc : c = false := by
+            simp only [PNode.bl2, Bool.and_eq_true] at h
+            cases c
+            · rfl
+            · simp at h
+          subst hc; simp [PNode.valueR, trailText]
+      | _ => simp [PNode.isInline2] at hi'
+    simp only [hb, if_true, hr1, List.nil_append, List.drop_succ_cons, List.drop_zero, docLines, hi', Bool.false_eq_true,
+      if_false]
+
+
+theorem keyHead_more (k : Str) (ks : KStyle) (h : keyOk false k ks = true) :
+    ∃ c t, keyText k ks = c :: t ∧ c ≠ '﻿' ∧ c ≠ '%' := by
+  cases ks with
+  | plain =>
+    simp only [keyOk, Bool.and_eq_true] at h
+    have hs := h.1.1
+    simp only [plainSafe, Bool.and_eq_true] at hs
+    obtain ⟨c, t, rfl, hc⟩ := plainFirst_head false k hs.1.1.1.1.2
+    have hp : isPrintable c = true := by
+      have := hs.1.1.1.1.1; simp only [List.all_cons, Bool.and_eq_true] at this; exact this.1
+    exact ⟨c, t, rfl, by intro e; subst e; exact absurd hp (by decide), plainHead_ne c hc '%' (by decide)⟩
+  | single => exact ⟨'\'', _, rfl, by decide, by decide⟩
+  | double sh eu => exact ⟨'"', _, rfl, by decide, by decide⟩
+
+/-- Head of the first line of a bare layer-2 document. -/
+theorem docLines_head (x : PNode) (g : Nat) (h : x.bl2 .root = true) :
+    ∃ c t ls, docLines x g = ⟨0, c :: t⟩ :: ls ∧ c ≠ '﻿' ∧ c ≠ '%' ∧ c ≠ '#' := by
+  by_cases hi : x.isInline2 = true
+  · have hne := flow_ne_nil_root x h hi
+    obtain ⟨⟨c, r, hx, hsp, _, hhash, _⟩, _⟩ := inline2_value x .root h hi hne
+    refine ⟨c, r, [], by simp [docLines, hi, hx], ?_, ?_, hhash⟩
+    · -- BOM
+      intro e; subst e
+      have hok := okc_inline2 x .root h hi
+      cases x with
+      | null v =>
+        have h4 : v % 5 ≠ 4 := by intro h4; apply hne; simp [PNode.flow, nullText, h4]
+        have := (tokOk_nullText v h4).1
+        rw [show nullText v = (PNode.null v).flow from rfl, hx] at this
+        simp only [List.all_cons, Bool.and_eq_true] at this; exact absurd this.1 (by decide)
+      | bool b v =>
+        have := (tokOk_boolText b v).1
+        rw [show boolText b v = (PNode.bool b v).flow from rfl, hx] at this
+        simp only [List.all_cons, Bool.and_eq_true] at this; exact absurd this.1 (by decide)
+      | int i v =>
+        have := (intText_facts i v).1.1
+        rw [show intText i v = (PNode.int i v).flow from rfl, hx] at this
+        simp only [List.all_cons, Bool.and_eq_true] at this; exact absurd this.1 (by decide)
+      | str s st =>
+        cases st with
+        | plain =>
+          have hs : plainSafe false s = true := by simp [PNode.bl2, PNode.sc2] at h; exact h.1
+          simp only [plainSafe, Bool.and_eq_true] at hs
+          have hp := hs.1.1.1.1.1
+          have : s = '﻿' :: r := by simpa [PNode.flow, strFlowText] using hx
+          rw [this] at hp
+          simp only [List.all_cons, Bool.and_eq_true] at hp; exact absurd hp.1 (by decide)
+        | single => simp [PNode.flow, strFlowText, sqText] at hx
+        | double sh eu => simp [PNode.flow, strFlowText, dqText] at hx
+        | literal ch ind ex => simp [PNode.bl2, PNode.sc2] at h
+        | folded ch ind ex fo => simp [PNode.bl2, PNode.sc2] at h
+      | seq fl st c items => cases fl <;> simp [PNode.flow, PNode.isInline2] at hx hi
+      | map fl st c es => cases fl <;> simp [PNode.flow, PNode.isInline2] at hx hi
+      | anchored a n => simp [PNode.bl2, PNode.sc2] at h
+      | alias a t => simp [PNode.bl2, PNode.sc2] at h
+    · -- %
+      intro e; subst e
+      cases x with
+      | null v =>
+        have h4 : v % 5 ≠ 4 := by intro h4; apply hne; simp [PNode.flow, nullText, h4]
+        have := (tokOk_nullText v h4).1
+        rw [show nullText v = (PNode.null v).flow from rfl, hx] at this
+        simp only [List.all_cons, Bool.and_eq_true] at this; exact absurd this.1 (by decide)
+      | bool b v =>
+        have := (tokOk_boolText b v).1
+        rw [show boolText b v = (PNode.bool b v).flow from rfl, hx] at this
+        simp only [List.all_cons, Bool.and_eq_true] at this; exact absurd this.1 (by decide)
+      | int i v =>
+        have := (intText_facts i v).1.1
+        rw [show intText i v = (PNode.int i v).flow from rfl, hx] at this
+        simp only [List.all_cons, Bool.and_eq_true] at this; exact absurd this.1 (by decide)
+      | str s st =>
+        cases st with
+        | plain =>
+          have hs : plainSafe false s = true := by simp [PNode.bl2, PNode.sc2] at h; exact h.1
+          simp only [plainSafe, Bool.and_eq_true] at hs
+          obtain ⟨c', t', hk', hc'⟩ := plainFirst_head false s hs.1.1.1.1.2
+          have : s = '%' :: r := by simpa [PNode.flow, strFlowText] using hx
+          rw [this] at hk'
+          exact plainHead_ne c' hc' '%' (by decide) (List.cons.inj hk').1.symm
+        | single => simp [PNode.flow, strFlowText, sqText] at hx
+        | double sh eu => simp [PNode.flow, strFlowText, dqText] at hx
+        | literal ch ind ex => simp [PNode.bl2, PNode.sc2] at h
+        | folded ch ind ex fo => simp [PNode.bl2, PNode.sc2] at h
+      | seq fl st c items => cases fl <;> simp [PNode.flow, PNode.isInline2] at hx hi
+      | map fl st c es => cases fl <;> simp [PNode.flow, PNode.isInline2] at hx hi
+      | anchored a n => simp [PNode.bl2, PNode.sc2] at h
+      | alias a t => simp [PNode.bl2, PNode.sc2] at h
+  · have hi' : x.isInline2 = false := by simpa using hi
+    cases x with
+    | seq fl st c items =>
+      cases fl with
+      | true => simp [PNode.isInline2] at hi'
+      | false =>
+        simp only [PNode.bl2, Bool.and_eq_true, Bool.not_eq_true'] at h
+        obtain ⟨⟨hnil, hb⟩, hc⟩ := h
+        have hcf : c = false := by cases c <;> simp_all
+        subst hcf
+        cases items with
+        | nil => simp [PItems.isNil] at hnil
+        | cons m' y r =>
+          have hf : m'.fill = [] := by simp [PItems.bl2] at hb; exact hb.1.1.1
+          refine ⟨'-', (y.valueR .seq 0 1 m').1, (y.valueR .seq 0 1 m').2 ++ r.linesR 0, ?_, by decide, by decide, by decide⟩
+          simp [docLines, PNode.isInline2, PNode.valueR, PItems.linesR, hf, fillLines]
+    | map fl st c es =>
+      cases fl with
+      | true => simp [PNode.isInline2] at hi'
+      | false =>
+        simp only [PNode.bl2, Bool.and_eq_true, Bool.not_eq_true'] at h
+        obtain ⟨⟨hnil, hb⟩, hc⟩ := h
+        have hcf : c = false := by cases c <;> simp_all
+        subst hcf
+        cases es with
+        | nil => simp [PEntries.isNil] at hnil
+        | cons m' k ks y r =>
+          have hf : m'.fill = [] := by simp [PEntries.bl2] at hb; exact hb.1.1.1.1
+          have hk : keyOk false k ks = true := by simp [PEntries.bl2] at hb; exact hb.1.1.2
+          obtain ⟨c0, t0, hkt, q1, q2⟩ := keyHead_more k ks hk
+          obtain ⟨c1, t1, hkt1, _, hh, _⟩ := keyHead_facts k ks hk
+          have q3 : c0 ≠ '#' := by
+            rw [hkt] at hkt1; rw [(List.cons.inj hkt1).1]; exact hh
+          refine ⟨c0, t0 ++ ':' :: (y.valueR .map 0 (0 + (keyText k ks).length + 1) m').1,
+            (y.valueR .map 0 (0 + (keyText k ks).length + 1) m').2 ++ r.linesR 0, ?_, q1, q2, q3⟩
+          simp only [docLines, PNode.isInline2, Bool.false_eq_true, if_false, PNode.valueR, PEntries.linesR, hf, fillLines,
+            List.map_nil, List.nil_append, hkt, List.cons_append, if_true]
+    | _ => simp [PNode.isInline2] at hi'
+
+
+theorem docLines_canon (x : PNode) (g : Nat) (h : x.bl2 .root = true) : ∀ l ∈ docLines x g, l.canon := by
+  by_cases hi : x.isInline2 = true
+  · have hne := flow_ne_nil_root x h hi
+    obtain ⟨⟨c, r, hx, hsp, _⟩, _⟩ := inline2_value x .root h hi hne
+    intro l hl
+    simp only [docLines, hi, if_true, List.mem_singleton] at hl
+    subst hl
+    exact ⟨by rw [hx]; simpa using hsp, okc_inline2 x .root h hi⟩
+  · have hi' : x.isInline2 = false := by simpa using hi
+    simp only [docLines, hi', Bool.false_eq_true, if_false]
+    exact (canon_value x .root h 0 0 { gap := g } rfl).2.2
+
+theorem docLines_notMark (x : PNode) (g : Nat) (h : x.bl2 .root = true) : ∀ l ∈ docLines x g, l.notMark := by
+  by_cases hi : x.isInline2 = true
+  · intro l hl
+    simp only [docLines, hi, if_true, List.mem_singleton] at hl
+    subst hl
+    have hne := flow_ne_nil_root x h hi
+    -- a root scalar or flow collection: tokens and plain scalars never start with a marker
+    have e1 : "---".toList = ['-', '-', '-'] := by decide
+    have e2 : "...".toList = ['.', '.', '.'] := by decide
+    have key : ("---".toList).isPrefixOf x.flow = false ∧ ("...".toList).isPrefixOf x.flow = false := by
+      cases x with
+      | null v =>
+        refine ⟨notMarker_null v, ?_⟩
+        have h4 : v % 5 ≠ 4 := by intro h4; apply hne; simp [PNode.flow, nullText, h4]
+        have ht := tokOk_nullText v h4
+        obtain ⟨c, r, hx, hc⟩ := headClass_tok _ ht
+        simp only [PNode.flow]; rw [hx, e2]
+        have : ('.' == c) = false := by
+          have := headClass_ne c hc '.' (by decide); simp [Ne.symm this]
+        simp [List.isPrefixOf, this]
+      | bool b v =>
+        refine ⟨notMarker_bool b v, ?_⟩
+        obtain ⟨c, r, hx, hc⟩ := headClass_tok _ (tokOk_boolText b v)
+        simp only [PNode.flow]; rw [hx, e2]
+        have : ('.' == c) = false := by
+          have := headClass_ne c hc '.' (by decide); simp [Ne.symm this]
+        simp [List.isPrefixOf, this]
+      | int i v =>
+        refine ⟨(intText_facts i v).2.2, ?_⟩
+        obtain ⟨c, r, hx, hc⟩ := headClass_tok _ (intText_facts i v).1
+        simp only [PNode.flow]; rw [hx, e2]
+        have : ('.' == c) = false := by
+          have := headClass_ne c hc '.' (by decide); simp [Ne.symm this]
+        simp [List.isPrefixOf, this]
+      | str s st =>
+        cases st with
+        | plain =>
+          have hs : plainSafe false s = true := by simp [PNode.bl2, PNode.sc2] at h; exact h.1
+          simp only [plainSafe, Bool.and_eq_true, Bool.not_eq_true'] at hs
+          exact ⟨hs.1.2, hs.2⟩
+        | single => exact ⟨by simp [PNode.flow, strFlowText, sqText, e1, List.isPrefixOf], by simp [PNode.flow, strFlowText, sqText, e2, List.isPrefixOf]⟩
+        | double sh eu => exact ⟨by simp [PNode.flow, strFlowText, dqText, e1, List.isPrefixOf], by simp [PNode.flow, strFlowText, dqText, e2, List.isPrefixOf]⟩
+        | literal ch ind ex => simp [PNode.bl2, PNode.sc2] at h
+        | folded ch ind ex fo => simp [PNode.bl2, PNode.sc2] at h
+      | seq fl st c items =>
+        cases fl with
+        | true => exact ⟨by simp [PNode.flow, e1, List.isPrefixOf], by simp [PNode.flow, e2, List.isPrefixOf]⟩
+        | false => simp [PNode.isInline2] at hi
+      | map fl st c es =>
+        cases fl with
+        | true => exact ⟨by simp [PNode.flow, e1, List.isPrefixOf], by simp [PNode.flow, e2, List.isPrefixOf]⟩
+        | false => simp [PNode.isInline2] at hi
+      | anchored a n => simp [PNode.bl2, PNode.sc2] at h
+      | alias a t => simp [PNode.bl2, PNode.sc2] at h
+    exact ⟨by simp only [isDocStart, isMarker, key.1, Bool.and_false, Bool.false_and],
+      by simp only [isDocEnd, isMarker, key.2, Bool.and_false, Bool.false_and]⟩
+  · have hi' : x.isInline2 = false := by simpa using hi
+    simp only [docLines, hi', Bool.false_eq_true, if_false]
+    exact nm_value x .root h 0 0 { gap := g } rfl
+
+/-- The body of a bare layer-2 document. -/
+theorem parseDocBody_block2 (x : PNode) (g : Nat) (h : x.bl2 .root = true) :
+    parseDocBody none (docLines x g) = .ok x.node := by
+  unfold parseDocBody
+  simp only [Option.getD_none, List.length_nil, Nat.zero_mul, Nat.add_zero, fuelOf_wt]
+  by_cases hi : x.isInline2 = true
+  · have hne := flow_ne_nil_root x h hi
+    obtain ⟨⟨c, r, hx, hsp, htab, hhash, hbar, hgt, hamp⟩, hdash, hkey, hinl⟩ := inline2_value x .root h hi hne
+    simp only [docLines, hi, if_true, hx] at *
+    have : ∃ f, wt [⟨0, c :: r⟩] * 4 + 8 = f + 2 := ⟨wt [⟨0, c :: r⟩] * 4 + 6, by omega⟩
+    obtain ⟨f, hf⟩ := this
+    rw [hf, parseBlock_inline f c r x.node hsp htab hhash hbar hgt hamp hdash hkey hinl]
+    simp [skipFill]
+  · have hi' : x.isInline2 = false := by simpa using hi
+    simp only [docLines, hi', Bool.false_eq_true, if_false]
+    have hb := bneed_value x .root h 0 0 { gap := g }
+    have hr1 : (x.valueR .root 0 0 { gap := g }).1 = [] := by
+      cases x with
+      | seq fl st c items =>
+        cases fl with
+        | true => simp [PNode.isInline2] at hi'
+        | false =>
+          have hc : c = false := by
+            simp only [PNode.bl2, Bool.and_eq_true] at h
+            cases c
+            · rfl
+            · simp at h
+          subst hc; simp [PNode.valueR, trailText]
+      | map fl st c es =>
+        cases fl with
+        | true => simp [PNode.isInline2] at hi'
+        | false =>
+          have hc : c = false := by
+            simp only [PNode.bl2, Bool.and_eq_true] at h
+            cases c
+            · rfl
+            · simp at h
+          subst hc; simp [PNode.valueR, trailText]
+      | _ => simp [PNode.isInline2] at hi'
+    have hA := afterL x .root h 0 0 { gap := g } rfl (Or.inr rfl)
+      (wt (x.valueR .root 0 0 { gap := g }).2 * 4 + 8 + 1) [] (by rw [hr1] at hb; simp at hb; omega) (by simp [Bound, skipFill])
+    rw [hr1, parseAfter_nil] at hA
+    simp only [pnOf, if_true, show (Ctx.root == Ctx.map) = false by rfl, List.append_nil] at hA
+    obtain ⟨rest', hp, hsk⟩ := hA
+    rw [hp]
+    simp only [hsk, skipFill, List.isEmpty_nil, if_true]
+
+/-- Layer 2 on characters: a bare document whose root is a layer-2 node. -/
+theorem loadChars_block2 (x : PNode) (g : Nat) (h : x.bl2 .root = true) :
+    loadChars (bareStream x g).chars = .ok [x.tree] := by
+  rw [chars_bare x g h]
+  have hcan := docLines_canon x g h
+  obtain ⟨c, t, ls, hL, hbom, hpct, hhash⟩ := docLines_head x g h
+  unfold loadChars
+  have e0 : stripBom (joinRaw (docLines x g)) = joinRaw (docLines x g) := by
+    rw [hL, joinRaw_cons]
+    simp only [Line.raw, spaces, List.replicate_zero, List.nil_append, List.cons_append]
+    unfold stripBom
+    split
+    · rename_i heq; exact absurd (List.cons.inj heq).1 hbom
+    · rfl
+  rw [e0, normBreaks_id _ (nocr_joinRaw _ hcan), linesOf_joinRaw _ hcan]
+  unfold loadLines
+  have hnm := docLines_notMark x g h
+  have hbody := parseDocBody_block2 x g h
+  rw [hL] at hnm hbody ⊢
+  obtain ⟨hs, he⟩ := hnm _ (List.mem_cons_self ..)
+  have hd := parseDocs_oneDoc (ls.length + 1) ⟨0, c :: t⟩ ls x.node (by simp [Line.isFiller, hhash]) (by simpa using hpct) hs he
+    (takeDoc_notMark _ hnm) hbody
+  have hlen : (⟨0, c :: t⟩ :: ls : List Line).length + 2 = ls.length + 1 + 2 := by simp
+  rw [hlen, hd]
+  simp only [resolveDocs, resolveB x .root h []]
+  rfl
+
+
+theorem lfChars_bare (x : PNode) (g : Nat) (h : x.bl2 .root = true) : (bareStream x g).lfChars = joinRaw (docLines x g) := by
+  have := chars_bare x g h
+  rw [chars_eq_sub] at this
+  simp only [bareStream, subBreaks, flatMap_lf] at this
+  exact this
+
+/-- Layers 2 + 5: the same document under LF, CRLF or CR line breaks. -/
+theorem loadChars_block2_breaks (x : PNode) (g : Nat) (b : Break) (h : x.bl2 .root = true) :
+    loadChars ({ bareStream x g with br := b } : PStream).chars = .ok [x.tree] := by
+  have e : ({ bareStream x g with br := b } : PStream).lfChars = (bareStream x g).lfChars := rfl
+  have hnocr : (bareStream x g).lfChars.all (· != '\r') = true := by
+    rw [lfChars_bare x g h]; exact nocr_joinRaw _ (docLines_canon x g h)
+  rw [loadChars_breaks _ (by rw [e]; exact hnocr), e]
+  have h0 := loadChars_block2 x g h
+  rw [loadChars_breaks _ hnocr] at h0
+  exact h0
+
 end SV.YamlRef
